@@ -436,6 +436,12 @@ def _cleanup(self, tidx, T, j):
     _act(self, T['cleanups'][j])
 
 
+class FalsyThread(threading.Thread):
+    """A worker thread object that is falsy (it reports the length of its empty job queue): a thread like any other."""
+    def __len__(self):
+        return 0
+
+
 def _start_thread(tidx, spec):
     """spec: {"api": "threading"|"_thread", "name": str|None, "hold": bool, "release": [indices of parked threads]}"""
     import _thread
@@ -465,7 +471,7 @@ def _start_thread(tidx, spec):
         done.set()
     th = None
     if spec['api'] == 'threading':
-        th = threading.Thread(target=run, name=spec.get('name') or None, daemon=True)
+        th = (FalsyThread if spec.get('falsy') else threading.Thread)(target=run, name=spec.get('name') or None, daemon=True)
         th.start()
     else:
         _thread.start_new_thread(run, ())
